@@ -206,6 +206,26 @@ theorem known_host_other_key_gets_nothing (ks : List Key) (presented : Key) (pol
 theorem unknown_host_needs_policy (presented : Key) :
     sshClientConnect none presented false = .policyRejected := rfl
 
+/-- **Two stores.** With system and user host keys: credentials are offered only if the host is in neither store
+and the policy returned normally, or the entry of the store that is consulted (system first) has the presented key
+under the presented key's type.  In particular a host known to the system store only with other key types is
+refused whatever the policy says - it is never treated as unknown. -/
+theorem two_stores_send_only_if_known_or_accepted (system user : Known) (presented : Key) (pol : Bool)
+    (h : sshClientConnect2 system user presented pol = .authenticate) :
+    (system = none ∧ user = none ∧ pol = true) ∨
+    (∃ ks, effectiveKnown system user = some ks ∧ findType ks presented.name = some presented) := by
+  rcases ssh_client_sends_only_if_known_or_accepted _ presented pol h with ⟨hn, hp⟩ | h2
+  · left
+    cases system with
+    | some ks => simp [effectiveKnown] at hn
+    | none => exact ⟨rfl, by simpa [effectiveKnown] using hn, hp⟩
+  · exact Or.inr h2
+
+theorem system_entry_is_never_unknown (ks : List Key) (user : Known) (presented : Key) (pol : Bool)
+    (h : findType ks presented.name ≠ some presented) :
+    sshClientConnect2 (some ks) user presented pol = .badHostKey :=
+  known_host_other_key_gets_nothing ks presented pol h
+
 /-! ## non-vacuity -/
 
 -- a normal connection: password goes out encrypted
